@@ -165,6 +165,7 @@ func main() {
 	}
 	sort.Strings(uncovered)
 	out.Extra("fragment_coverage", map[string]any{"registered_types": len(names), "fragment_types": nFrag, "opaque_types": opaque})
+	out.Extra("opaque_reasons", pktgen.OpaqueReasons())
 	out.Extra("encoder_rejected_by_type", skipped)
 	out.Extra("types_without_any_case", uncovered)
 	out.Finish()
